@@ -32,6 +32,10 @@ type Peer struct {
 	Store   uint64 `json:"s"`
 	Learner bool   `json:"l,omitempty"`
 	Pending bool   `json:"p,omitempty"`
+	// Joint is the role of a non-learner peer inside a joint-consensus
+	// change: 0 voter, 1 incoming voter, 2 demoting voter. Both joint roles
+	// still count as voters of the region (leader or follower on their store).
+	Joint int `json:"j,omitempty"`
 }
 
 type Body struct {
@@ -82,6 +86,9 @@ func genBody(t *rapid.T) Body {
 		b.Peers = append(b.Peers, Peer{Store: stores[i],
 			Learner: rapid.IntRange(0, 3).Draw(t, "learner") == 0,
 			Pending: rapid.IntRange(0, 4).Draw(t, "pending") == 0})
+		if j := rapid.IntRange(0, 11).Draw(t, "joint"); j <= 2 && !b.Peers[i].Learner {
+			b.Peers[i].Joint = j
+		}
 	}
 	var voters []int
 	for i, p := range b.Peers {
@@ -215,6 +222,7 @@ type model struct {
 	regs   []*mreg // sorted by start
 	nextID uint64
 	nextP  uint64
+	joint  bool // some built region has a peer in a joint role
 }
 
 func (m *model) sortRegs() {
@@ -265,8 +273,15 @@ func (m *model) build(id uint64, start, end string, b Body) *mreg {
 	for i, p := range b.Peers {
 		m.nextP++
 		mp := &metapb.Peer{Id: m.nextP, StoreId: p.Store}
-		if p.Learner {
+		switch {
+		case p.Learner:
 			mp.Role = metapb.PeerRole_Learner
+		case p.Joint == 1:
+			m.joint = true
+			mp.Role = metapb.PeerRole_IncomingVoter
+		case p.Joint == 2:
+			m.joint = true
+			mp.Role = metapb.PeerRole_DemotingVoter
 		}
 		meta.Peers = append(meta.Peers, mp)
 		if i == b.Leader {
@@ -354,7 +369,7 @@ func runCase(c Case) (vkit.Info, error) {
 			var pending []*metapb.Peer
 			var voters []int
 			for j, p := range old.body.Peers {
-				np := Peer{Store: p.Store, Learner: p.Learner, Pending: op.Body.Peers[j].Pending}
+				np := Peer{Store: p.Store, Learner: p.Learner, Joint: p.Joint, Pending: op.Body.Peers[j].Pending}
 				b.Peers = append(b.Peers, np)
 				if np.Pending {
 					pending = append(pending, old.info.GetMeta().Peers[j])
@@ -498,6 +513,7 @@ func runCase(c Case) (vkit.Info, error) {
 		return info, fmt.Errorf("final sweep: %v", err)
 	}
 	info.ClassIf(displacedByRange, "displaced")
+	info.ClassIf(m.joint, "joint-role")
 	info.ClassIf(roleChangeSameRange, "rolechange-same-range")
 	info.NonTrivial = displacedByRange && roleChangeSameRange
 	return info, nil
@@ -826,17 +842,33 @@ type roleFn struct {
 // The schedulers do not call RegionsInfo.Rand*Region but BasicCluster.Rand*Region, which goes through the plural
 // RegionsInfo.Rand*Regions(store, ranges, n) helpers (regionTree.RandomRegions) and takes the first accepted element.
 var pluralPicks = map[string]func(ri *core.RegionsInfo, s uint64, rs []core.KeyRange, n int) []*core.RegionInfo{
-	"leader":   func(ri *core.RegionsInfo, s uint64, rs []core.KeyRange, n int) []*core.RegionInfo { return ri.RandLeaderRegions(s, rs, n) },
-	"follower": func(ri *core.RegionsInfo, s uint64, rs []core.KeyRange, n int) []*core.RegionInfo { return ri.RandFollowerRegions(s, rs, n) },
-	"learner":  func(ri *core.RegionsInfo, s uint64, rs []core.KeyRange, n int) []*core.RegionInfo { return ri.RandLearnerRegions(s, rs, n) },
-	"pending":  func(ri *core.RegionsInfo, s uint64, rs []core.KeyRange, n int) []*core.RegionInfo { return ri.RandPendingRegions(s, rs, n) },
+	"leader": func(ri *core.RegionsInfo, s uint64, rs []core.KeyRange, n int) []*core.RegionInfo {
+		return ri.RandLeaderRegions(s, rs, n)
+	},
+	"follower": func(ri *core.RegionsInfo, s uint64, rs []core.KeyRange, n int) []*core.RegionInfo {
+		return ri.RandFollowerRegions(s, rs, n)
+	},
+	"learner": func(ri *core.RegionsInfo, s uint64, rs []core.KeyRange, n int) []*core.RegionInfo {
+		return ri.RandLearnerRegions(s, rs, n)
+	},
+	"pending": func(ri *core.RegionsInfo, s uint64, rs []core.KeyRange, n int) []*core.RegionInfo {
+		return ri.RandPendingRegions(s, rs, n)
+	},
 }
 
 var clusterPicks = map[string]func(bc *core.BasicCluster, s uint64, rs []core.KeyRange) *core.RegionInfo{
-	"leader":   func(bc *core.BasicCluster, s uint64, rs []core.KeyRange) *core.RegionInfo { return bc.RandLeaderRegion(s, rs) },
-	"follower": func(bc *core.BasicCluster, s uint64, rs []core.KeyRange) *core.RegionInfo { return bc.RandFollowerRegion(s, rs) },
-	"learner":  func(bc *core.BasicCluster, s uint64, rs []core.KeyRange) *core.RegionInfo { return bc.RandLearnerRegion(s, rs) },
-	"pending":  func(bc *core.BasicCluster, s uint64, rs []core.KeyRange) *core.RegionInfo { return bc.RandPendingRegion(s, rs) },
+	"leader": func(bc *core.BasicCluster, s uint64, rs []core.KeyRange) *core.RegionInfo {
+		return bc.RandLeaderRegion(s, rs)
+	},
+	"follower": func(bc *core.BasicCluster, s uint64, rs []core.KeyRange) *core.RegionInfo {
+		return bc.RandFollowerRegion(s, rs)
+	},
+	"learner": func(bc *core.BasicCluster, s uint64, rs []core.KeyRange) *core.RegionInfo {
+		return bc.RandLearnerRegion(s, rs)
+	},
+	"pending": func(bc *core.BasicCluster, s uint64, rs []core.KeyRange) *core.RegionInfo {
+		return bc.RandPendingRegion(s, rs)
+	},
 }
 
 var roles = []roleFn{
